@@ -29,7 +29,7 @@ package home
 //vx:stub (*go.etcd.io/bbolt.Bucket).Put vxC12Put
 //vx:stub (*go.etcd.io/bbolt.Bucket).Delete vxC12Delete
 //vx:stub (*go.etcd.io/bbolt.Bucket).ForEach vxC12ForEach
-//vx:note Throttle entry: real handleLogin -> authRateLimiter -> newCookie on 4 (quick) / 5 (thorough) login attempts; per attempt a symbolic password verdict and a symbolic monotonic instant (non-decreasing, nanosecond resolution, < 95 years), arbitrary wall-clock reading; attempt limit symbolic over all of uint >= 1; block duration 15 min (quick) / {1, 15} min (thorough) - concrete because a symbolic Duration stalls the solver in time.Add (d/1e9); two peer addresses (IPv4, IPv6), every attempt from a different port and with a different spoofed X-Real-IP inside trusted_proxies; quick: at most one attempt from the second address, thorough: any pattern
+//vx:note Throttle entry: real handleLogin -> authRateLimiter -> newCookie on 4 (quick) / 5 (thorough) login attempts; per attempt a symbolic password verdict and a symbolic monotonic instant (non-decreasing, nanosecond resolution, < 95 years), arbitrary wall-clock reading; attempt limit symbolic over all of uint >= 1; block duration 15 min (quick) / {1, 15} min (thorough) - concrete because a symbolic Duration stalls the solver in time.Add (d/1e9); two peer addresses (IPv4, IPv6), every attempt from a different port and with a different spoofed X-Real-IP inside trusted_proxies; at most one attempt comes from the second address (any position but the first)
 //vx:note Throttle reference (written from the statement): per address a run of failures that starts with the first failure and is forgotten one minute later or on success; the run reaching the limit starts a block of the configured length; blocked <=> 429, no password evaluation, no session.  Open corners, not asserted: the state after a failed attempt exactly one minute after the first failure or exactly at the end of the block
 //vx:note Sessions entry: real handleLogin / optionalAuth(checkSession) / handleLogout / InitAuth(loadSessions) over login followed by 2 (quick) / 3 (thorough) steps from {request, logout, restart; thorough: second login} and a final request per token plus a never-issued token; instants symbolic seconds, non-decreasing, in a window of 8 days (quick) / 70 days (thorough) starting 2023-11-14T22:13:20Z+30000s; TTL symbolic 0..3 days (quick) / 0..31 days (thorough)
 //vx:note Sessions reference: refused if never issued, logged out, refused before, or now >= (login or last authenticated use) + TTL; served if now < login + TTL or now < last use + TTL - 86399 s; in between (the "once a day" refresh granularity) either answer is accepted
@@ -394,18 +394,13 @@ func vxC12Throttle() {
 	var ref [2]vxC12Ref
 	prev := int64(1)
 
-	// quick: at most one attempt comes from the second address (any position
-	// but the first); thorough: every attempt but the first from either
-	bpos := -1
-	if !vx.Thorough() {
-		bpos = vx.Choice("bpos", k)
-	}
+	// at most one attempt comes from the second address (any position but the
+	// first)
+	bpos := vx.Choice("bpos", k)
 	for i := 0; i < k; i++ {
 		x := 0
 		if bpos > 0 && i == bpos {
 			x = 1
-		} else if bpos < 0 && i > 0 {
-			x = vx.Choice("addr", 2)
 		}
 		if x == 1 {
 			vx.Reach("second-address")
@@ -555,14 +550,7 @@ func vxC12Sessions() {
 		sess = append(sess, &vxC12Sess{tok: w.cookie.Value, orig: now + ttl64, last: now})
 	}
 	pick := func() (tok string, s *vxC12Sess) {
-		n := len(sess)
-		if vx.Thorough() {
-			n++
-		}
-		i := vx.Choice("tok", n)
-		if i == len(sess) {
-			return bogus, nil
-		}
+		i := vx.Choice("tok", len(sess))
 		return sess[i].tok, sess[i]
 	}
 	request := func(tok string, s *vxC12Sess, final bool) {
